@@ -173,8 +173,10 @@ func ToChannel[T any](size int) func(Observable[T]) Observable[<-chan Notificati
 			destination.NextWithContext(subscriberCtx, ch)
 
 			return func() {
+				// deferred: the channel must be closed even if an upstream teardown panics
+				defer closeChan()
+
 				subscriptions.Unsubscribe()
-				closeChan()
 			}
 		})
 	}
